@@ -26,6 +26,7 @@ type mergeCase struct {
 	Sanitize bool             `json:"sanitize"`
 	Edit     string           `json:"edit,omitempty"` // C05: conflict edit kind ("" = mergeable)
 	EditAt   []int            `json:"edit_at,omitempty"`
+	Benign   bool             `json:"benign_edit,omitempty"` // C05: the edit keeps the set mergeable (pairwise identical / disjoint): accepted in every order
 	UIdx     int              `json:"universe_index"`
 }
 
